@@ -4,6 +4,8 @@ from model import *
 
 CONSUMERS = {"collect", "for_each", "count", "join", "fold", "last", "sum", "max", "min", "collect_vec", "try_for_each",
              "extend", "from_iter"}
+# adaptors / consumers that run a closure once per item
+PER_ITEM = {"map", "flat_map", "filter_map", "for_each", "try_for_each", "fold", "try_fold", "inspect"}
 ORDER_KEEPING = {"filter", "enumerate", "map", "copied", "cloned", "inspect", "peekable", "filter_map"}
 SORTS = {"sorted", "sorted_by_key", "sorted_unstable", "sorted_unstable_by_key"}
 ITEM_KEEPING = {"filter", "sorted", "sorted_by_key", "sorted_unstable", "sorted_unstable_by_key", "rev", "skip",
@@ -12,7 +14,15 @@ ITEM_KEEPING = {"filter", "sorted", "sorted_by_key", "sorted_unstable", "sorted_
 
 def is_vertices_of_self(src):
     s = strip_load(src)
-    return s[0] == "field" and s[2] == "Sodg::vertices"
+    if s[0] == "field" and s[2] == "Sodg::vertices":
+        return True
+    return is_keys_call(s)
+
+
+def is_keys_call(s):
+    """the public keys() listing of the graph: present vertices only, ascending (checked itself by XP1)"""
+    s = strip_load(s)
+    return s[0] == "call" and s[1].endswith("Sodg<N>>::keys") and len(s[2]) == 1 and strip_load(s[2][0]) == ("param", 1)
 
 
 def is_edges_field(src):
@@ -70,6 +80,7 @@ def iterations(F, root, source_pred, stop=()):
     raw = col.collect(root)
     out = []
     seen = set()
+    chains_seen = set()
     for e in raw:
         if e.kind != "call":
             continue
@@ -82,16 +93,39 @@ def iterations(F, root, source_pred, stop=()):
                 if key not in seen:
                     seen.add(key)
                     out.append(Iteration("loop", e.body, e.site, it, raw, e.chain))
-        elif e.name in CONSUMERS and e.args:
+        elif (e.name in CONSUMERS or e.name in PER_ITEM) and e.args:
             it = strip_load(e.args[0])
             if e.name in ("extend", "from_iter") and len(e.args) > 1:
                 it = strip_load(e.args[-1])
             src = iter_source(it)
             if src is not None and source_pred(src) and it[0] in ("iter", "adapt"):
+                # once per traversal: a consumer of a chain that already has a per-item closure registered adds nothing
+                prefixes = set()
+                x = it
+                while True:
+                    prefixes.add(strip_sites(x))
+                    if x[0] == "adapt":
+                        x = strip_load(x[2])
+                        continue
+                    break
+                if any(k in prefixes for k in chains_seen):
+                    continue
                 key = ("chain", id(e.body), e.site)
                 if key not in seen:
                     seen.add(key)
-                    out.append(Iteration("chain", e.body, e.site, it, raw, e.chain))
+                    chains_seen.add(strip_sites(it))
+                    itn = Iteration("chain", e.body, e.site, it, raw, e.chain)
+                    itn.consumer = e.name
+                    itn.result = ("call", e.path, tuple(e.args), e.site[0])
+                    out.append(itn)
+    # a chain merely collected into a vector that is walked later: the later walk is the traversal
+    later = set()
+    for i2 in out:
+        for an, ex in i2.adaptors:
+            if an == "collect":
+                later.add(strip_sites(strip_load(ex[0])))
+    out = [i2 for i2 in out if not (i2.form == "chain" and getattr(i2, "consumer", "") in ("collect", "collect_vec") and
+                                    strip_sites(i2.result) in later)]
     return out, raw
 
 
@@ -153,6 +187,9 @@ def xp1(F, R, only=None):
             n += 1
             ok = filter_excludes_absent(F, it)
             how = "filter adaptor"
+            if not ok and is_keys_call(it.source) and name != "keys":
+                ok = True
+                how = "walks keys(), the present vertices"
             if not ok and it.form == "loop":
                 evs = it.body_events()
                 q = vertex_item_tag_pred(it)
@@ -192,6 +229,20 @@ def sort_key_is(F, extra, field_idx):
     return bool(cb.returns)
 
 
+def cmp_closure_on(F, cl, field_idx):
+    """closure |l, r| l.<idx>.cmp(r.<idx>) (or partial_cmp / the reverse is NOT accepted)"""
+    cb = closure_of(F, cl)
+    if cb is None or cb.arg_count != 3:
+        return False
+    for site, t in cb.calls():
+        if t["callee"].get("name") in ("cmp", "partial_cmp"):
+            args = [unload(deref_addr(cb, a)) for a in cb.call_args(t, site)]
+            if len(args) == 2 and all(a[0] == "field" and a[2] == "(tuple)::%d" % field_idx for a in args) and \
+                    mentions(args[0], lambda x: x == ("param", 2)) and mentions(args[1], lambda x: x == ("param", 3)):
+                return True
+    return False
+
+
 def xp2(F, R):
     for name in ("to_xml", "to_dot"):
         b = F.fn("Sodg", name)
@@ -217,6 +268,8 @@ def xp2(F, R):
             src_how = source_method(it.it)
             if src_how not in ("iter", "iter_mut", "into_iter"):
                 bad = "vertex store walked with `%s`" % src_how
+            if bad and bad.startswith("adaptor `collect`"):
+                bad = None
             if bad:
                 R.bad("XP2", "XP2/Sodg::%s/vertex-order" % name, it.where(),
                       "vertices are not emitted in ascending id order: %s" % bad, {"iterator": show(it.it, it.body)})
@@ -228,6 +281,21 @@ def xp2(F, R):
         for it in eits:
             sorted_ok = False
             bad = None
+            # a vector collected from the edges and sorted in place by label before it is walked
+            for an, extra in it.adaptors:
+                if an == "collect":
+                    vec = strip_sites(strip_load(extra[0]))
+                    for e2 in it.evs:
+                        if e2.kind == "call" and e2.name in ("sort", "sort_unstable") and e2.args and mentions(e2.args[0], lambda x: strip_sites(x) == vec):
+                            sorted_ok = True      # (label, target) pairs: ordered by label first
+                        if e2.kind == "call" and e2.name in ("sort_by", "sort_unstable_by", "sort_by_key", "sort_unstable_by_key", "sort_by_cached_key") and \
+                                len(e2.args) == 2 and mentions(e2.args[0], lambda x: strip_sites(x) == vec):
+                            if e2.name.endswith("by_key") or e2.name.endswith("cached_key"):
+                                sorted_ok = sort_key_is(F, e2.args[1:], 0)
+                            else:
+                                sorted_ok = cmp_closure_on(F, e2.args[1], 0)
+                            if not sorted_ok:
+                                bad = "edges sorted by something other than the label"
             for an, extra in it.adaptors:
                 if an == "sorted":
                     sorted_ok = True
